@@ -39,6 +39,8 @@ RULES = [
      ("theorem:lineAfter_total", "inside `if let Some(rest) = line_string.get(match_col..)`: match_col is a boundary <= len")),
     (r"preview/diff\.rs", r"^render_diff$", r"regex::replace_range", r".",
      ("theorem:diffStep_total", "behind `after_line.get(col..).is_some_and(.. starts_with(&hunk.content))`")),
+    (r".", r".", r"regex::index_cfg_windows", r".",
+     ("unreachable-from-input", "inside a `#[cfg(windows)]` item / block: not compiled on this platform (which is why clippy does not see it)")),
     (r"main\.rs", r"^argv_asks_for_json$", r"regex::env_args", r".",
      ("known-finding:argv_nonutf8_parse_error", "std::env::args() panics on an argument that is not valid Unicode; reached when clap "
                                                 "rejects the command line (cc8b751)")),
